@@ -45,6 +45,20 @@ def genC15 (tier : Tier) (seed : Nat) (o : Out) : IO Unit := do
   o.line (permCase "d15a-key-clash" "-"
     [txt (sFile "A::B" [.struct [] [] false "X" []]), txt (sFile "A" [.struct [] [] false "B" [], .struct [] [] false "U" [fld "b" (tr "B")]])]
     [[0, 1], [1, 0]] "rejected")
+  -- the same clash where the definition is never used as a type (only the redefinition scan can see it)
+  o.line (permCase "key-clash-unused" "-"
+    ["module Geo\nenum Shapes : uint8 { Circle, Square }\n", "module Geo::Shapes\nstruct Circle { radius: float64 }\n"]
+    [[0, 1], [1, 0]] "rejected")
+  o.line (permCase "key-clash-unused" "-"
+    ["module A\ncustom B\n", "module A::B::C\nstruct X {}\n", "module A::B\nstruct Y {}\n"] (permsOf [0, 1, 2]) "rejected")
+  -- conditional compilation must not leak between files: a symbol defined (or undefined) in one file, tested in another
+  for (opts, verdict, files) in
+      [("-", "accepted", ["#define WITH\nmodule D\nstruct C {}\n", "module D\n#if WITH\nstruct A {}\n#endif\nstruct R {}\n"]),
+       ("-", "rejected", ["#define WITH\nmodule D\nstruct C {}\n", "module D\n#if WITH\nstruct A {}\n#endif\nstruct R { a: A }\n"]),
+       ("D=Foo", "accepted", ["#undef Foo\nmodule M0\n#if Foo\nstruct A {}\n#endif\n", "module M1\n#if Foo\nstruct B {}\n#else\nstruct C {}\n#endif\nstruct U { b: B }\n"]),
+       ("D=Foo", "rejected", ["#undef Foo\nmodule M0\n", "module M1\n#if Foo\nstruct B {}\n#endif\nstruct U { c: C }\n", "module M1\n#if !Foo\nstruct C {}\n#endif\n"]),
+       ("D=X;D=Y", "accepted", ["module M\n#if X && Y\n#undef X\nstruct A {}\n#endif\n", "module M\n#if X\nstruct B { a: A }\n#endif\n", "#define Z\nmodule M\n#if Z\nstruct C { b: B }\n#endif\n"])] do
+    o.line (permCase "preproc-isolation" opts files (permsOf (List.range files.length)) verdict)
   -- generated valid programs, all permutations of up to 4 files
   let nProg := if tier == .thorough then 3000 else 300
   let mut r := Rng.mk' (seed + 15)
